@@ -167,3 +167,18 @@ func init() {
 		return CV{ctx.ex.deser64(ctx.state(), args[0].t), nil}
 	}
 }
+
+func init() {
+	// AccAddress.Equals(other): same bytes (the other address arrives boxed in the Address interface)
+	reg("(github.com/cosmos/cosmos-sdk/types.AccAddress).Equals", func(fr *Frame, st *State, c *ssa.CallCommon, a []*Term) ([]*Term, bool) {
+		ex := fr.ex
+		o := a[1]
+		if o.op == "app" && len(o.args) == 1 && o.args[0].sort == Sort("Slice") {
+			o = o.args[0]
+		}
+		if a[0].sort != Sort("Slice") || o.sort != Sort("Slice") {
+			return nil, false
+		}
+		return []*Term{ex.f.Eq(ex.bytesToStr(st, a[0]), ex.bytesToStr(st, o))}, true
+	})
+}
